@@ -88,17 +88,20 @@ theorem buildTree_isSome (fuel : Nat) (s : Sym) (ss : List Sym) (ps : List Pfl.P
   obtain ⟨t, ps', w', e, _, _⟩ := buildTree_total fuel s ss ps w h (by omega)
   rw [e]; rfl
 
-/-- `get_llone_parse_tree` terminates on every well-formed grammar with a start symbol (the model
-answers `none` for every fuel when there is no start symbol; the library raises
-NotParsableException) -/
-theorem parse_isSome (G : CFG) (hG : G.WF) (hs : G.start.isSome) (w : List String) (fuel : Nat)
+/-- `get_llone_parse_tree` terminates on every well-formed grammar (without a start symbol the
+answer is NotParsableException at once, see `parse_no_start`) -/
+theorem parse_isSome (G : CFG) (hG : G.WF) (w : List String) (fuel : Nat)
     (hf1 : firstFuel G ≤ fuel) (hf2 : followFuel G ≤ fuel) (hf3 : parseFuel G w ≤ fuel) :
     (parse G w fuel).isSome := by
   obtain ⟨tb, htb⟩ := Option.isSome_iff_exists.mp (table_isSome G fuel hf1 hf2)
-  obtain ⟨s, hst⟩ := Option.isSome_iff_exists.mp hs
+  cases hst : G.start with
+  | none => unfold parse; rw [hst]; rfl
+  | some s =>
   have hloop := parseLoop_isSome G hG fuel tb htb s w fuel hf3
   unfold parse
-  rw [htb, hst]
+  rw [hst]
+  simp only
+  rw [htb]
   simp only
   obtain ⟨r, hr⟩ := Option.isSome_iff_exists.mp hloop
   rw [hr]
@@ -118,11 +121,11 @@ theorem parse_isSome (G : CFG) (hG : G.WF) (hs : G.start.isSome) (w : List Strin
     rfl
 
 /-- total correctness: with enough fuel the answer is NotParsableException or a parse tree of `w` -/
-theorem parse_total (G : CFG) (hG : G.WF) (hs : G.start.isSome) (w : List String) (fuel : Nat)
+theorem parse_total (G : CFG) (hG : G.WF) (w : List String) (fuel : Nat)
     (hf1 : firstFuel G ≤ fuel) (hf2 : followFuel G ≤ fuel) (hf3 : parseFuel G w ≤ fuel) :
     parse G w fuel = some none ∨
       ∃ t, parse G w fuel = some (some t) ∧ G.treeValid t w = true := by
-  obtain ⟨r, hr⟩ := Option.isSome_iff_exists.mp (parse_isSome G hG hs w fuel hf1 hf2 hf3)
+  obtain ⟨r, hr⟩ := Option.isSome_iff_exists.mp (parse_isSome G hG w fuel hf1 hf2 hf3)
   cases r with
   | none => exact Or.inl hr
   | some t => exact Or.inr ⟨t, hr, parse_valid G w fuel t hr⟩
@@ -134,16 +137,13 @@ theorem parse_isSome_mk' (vars ters : List String) (start : String) (prods : Lis
     (hf2 : followFuel (mk' vars ters (some start) prods) ≤ fuel)
     (hf3 : parseFuel (mk' vars ters (some start) prods) w ≤ fuel) :
     (parse (mk' vars ters (some start) prods) w fuel).isSome :=
-  parse_isSome _ (mk'_wf _ _ _ _) rfl w fuel hf1 hf2 hf3
+  parse_isSome _ (mk'_wf _ _ _ _) w fuel hf1 hf2 hf3
 
-/-- without a start symbol the model never answers (see `parse_isSome`) -/
+/-- without a start symbol the answer is NotParsableException, whatever the word and the fuel -/
 theorem parse_no_start (G : CFG) (h : G.start = none) (w : List String) (fuel : Nat) :
-    parse G w fuel = none := by
+    parse G w fuel = some none := by
   unfold parse
   rw [h]
-  split
-  · next h' => cases h'
-  · rfl
 
 /-! ### examples -/
 
@@ -188,7 +188,7 @@ theorem examples_fuel :
 
 /-- non-vacuity of `parse_isSome` / `parse_total` -/
 example : (parse hiddenRec ["b", "a"] 361).isSome :=
-  parse_isSome hiddenRec examples_wf.2.2.2.1 rfl _ 361 (by decide +kernel) (by decide +kernel)
+  parse_isSome hiddenRec examples_wf.2.2.2.1 _ 361 (by decide +kernel) (by decide +kernel)
     (by decide +kernel)
 
 /-- the step bound must be exponential in the number of variables: with bodies of length 2 the
@@ -220,33 +220,36 @@ theorem recursion_rejected :
 /-- the leftmost sequence of productions the machine emits (`buildTree` does not reduce in the
 kernel, so the examples with a tree are stated on the machine and completed by the theorems) -/
 def emitted (G : CFG) (w : List String) (fuel : Nat) : Option (Option (List Pfl.Prod)) :=
-  match table G fuel, G.start with
-  | some tb, some s => parseLoop tb fuel [some (.var s), none] w []
-  | _, _ => none
+  match G.start with
+  | none => some none
+  | some s =>
+    match table G fuel with
+    | none => none
+    | some tb => parseLoop tb fuel [some (.var s), none] w []
 
 theorem parse_reject_inv (G : CFG) (w : List String) (fuel : Nat) (h : parse G w fuel = some none) :
     emitted G w fuel = some none := by
   unfold parse at h
   unfold emitted
   split at h
-  · next tb s htb hst =>
+  · next hst => rw [hst]
+  · next s hst =>
+    rw [hst]
     split at h
     · cases h
-    · next hl => rw [htb, hst]; exact hl
-    · split at h <;> cases h
-  · cases h
+    · next tb htb =>
+      simp only [htb]
+      split at h
+      · cases h
+      · next hl => exact hl
+      · split at h <;> cases h
 
 /-- when the machine emits a sequence, a valid tree is returned -/
 theorem parse_tree_of_emitted (G : CFG) (hG : G.WF) (w : List String) (fuel : Nat)
     (hf1 : firstFuel G ≤ fuel) (hf2 : followFuel G ≤ fuel) (hf3 : parseFuel G w ≤ fuel)
     (ps : List Pfl.Prod) (h : emitted G w fuel = some (some ps)) :
     ∃ t, parse G w fuel = some (some t) ∧ G.treeValid t w = true := by
-  have hs : G.start.isSome := by
-    unfold emitted at h
-    split at h
-    · next tb s _ hst => rw [hst]; rfl
-    · cases h
-  rcases parse_total G hG hs w fuel hf1 hf2 hf3 with h1 | h1
+  rcases parse_total G hG w fuel hf1 hf2 hf3 with h1 | h1
   · rw [parse_reject_inv G w fuel h1] at h; cases h
   · exact h1
 
